@@ -47,7 +47,7 @@ const ENDS: u64 = 4; // module, missing, error, external
 const CHAIN_LENS: u64 = 14; // 0..=13
 const CYCLE_LENS: u64 = 12; // 1..=12
 const TAILS: u64 = 4; // 0..=3
-const LOCK_MODES: u64 = 4; // none, agree, disagree, loop
+const LOCK_MODES: u64 = 5; // none, agree, disagree, loop, stale per-hop entries
 
 fn family_size() -> u64 {
   // chains: len x end x maxr x lock ; cycles: clen x tail x maxr(3) ; implicit: 6
@@ -116,6 +116,21 @@ fn family_world(idx: u64) -> (World, SemOpts, String) {
         w.lockfile.present = true;
         w.lockfile.redirects.insert(r(0), r(1));
         w.lockfile.redirects.insert(r(1), r(0));
+      }
+      4 => {
+        // the lockfile of an earlier run: one redirect per hop; since then
+        // the second hop stopped redirecting and serves a module itself,
+        // and the old end of the chain is still imported directly
+        w.lockfile.present = true;
+        for k in 0..len {
+          w.lockfile.redirects.insert(r(k), r(k + 1));
+        }
+        if len >= 2 {
+          w.add_desc(ModuleDesc::new(r(1), Lang::Ts));
+          let mut main = w.descs.get(&format!("{}main.ts", H_FILE)).unwrap().clone();
+          main.items.push(Item::new(Form::SideEffect, r(len)));
+          w.add_desc(main);
+        }
       }
       _ => {}
     }
@@ -344,6 +359,33 @@ pub fn lookup_oracles(
           s,
           crate::checks::c04::truncate(&tg, 200),
           crate::checks::c04::truncate(&expect_tg, 200)
+        ),
+        s,
+        hops,
+      );
+      return;
+    }
+    // the listing has one result per specifier, and for a specifier that has
+    // an entry of its own that result is the entry (what get / try_get / the
+    // walk give for it)
+    // (two identical results for one specifier contradict nothing and are
+    // not reported)
+    let results: std::collections::BTreeSet<String> = listed
+      .iter()
+      .filter(|(k, _)| k == s)
+      .map(|(_, r)| format!("{:?}", r))
+      .collect();
+    let n_listed = results.len();
+    if n_listed > 1 {
+      push(
+        violations,
+        "specifiers-lists-redirect-sources",
+        "specifiers-listing:contradicting-results".to_string(),
+        format!(
+          "specifiers() lists {} with {} different results: {:?}",
+          s,
+          n_listed,
+          listed.iter().filter(|(k, _)| k == s).map(|(_, r)| r.clone()).collect::<Vec<_>>()
         ),
         s,
         hops,
